@@ -359,7 +359,7 @@ func cmdPlan(args []string) {
 		emitJSON(rec)
 		return
 	}
-	c := &core.Ctx{Tape: core.ReplayTape(plan.Tape), Tier: plan.Tier, Mode: plan.Mode, Rec: rec, Replay: true, Schedule: plan.Schedule, Verbose: true, Entry: plan.Entry, Input: plan.Input, RunIndex: plan.RunIndex}
+	c := &core.Ctx{Tape: core.ReplayTape(plan.Tape), Tier: plan.Tier, Mode: plan.Mode, Rec: rec, Replay: true, Schedule: plan.Schedule, Verbose: true, Entry: plan.Entry, Input: plan.Input, Knobs: plan.Knobs, RunIndex: plan.RunIndex}
 	if plan.Tape == nil && plan.Entry == "" {
 		// a run identified by seed only (its child died before reporting the
 		// tape): regenerate it, journalling every choice as it is made
